@@ -279,13 +279,25 @@ def check_caret_alignment(ctx, sm, el):
     long_cols = ', '.join(f'column_{i}' for i in range(30))
 
     def tokens_of(text):
+        # tokens with the positions sly gives them: index / end are offsets in the text; lineno advances only at newlines BETWEEN tokens - a newline inside a
+        # comment or inside a quoted string is consumed by a rule that does not touch lineno (see newline_rules_without_lineno_update)
         out = []
-        for m in _re.finditer(r'[^\s,]+|,', text):
-            out.append(Obj('Token', type='T', value=m.group(0), index=m.start(), end=m.end(), lineno=text.count('\n', 0, m.start()) + 1))
+        unseen = 0
+        for m in _re.finditer(r"/\*.*?\*/|'[^']*'|[^\s,]+|,", text, _re.S):
+            tok = m.group(0)
+            lineno = text.count('\n', 0, m.start()) + 1 - unseen
+            if tok.startswith('/*') or tok.startswith("'"):
+                unseen += tok.count('\n')
+            if tok.startswith('/*'):
+                continue
+            out.append(Obj('Token', type='T', value=tok, index=m.start(), end=m.end(), lineno=lineno))
         return out
     probes = [('short line', 'select a from from t', 'from', 2), ('second line', 'select a\nfrom from t', 'from', 2), ('third line', 'select a\n   , b\n  from from t', 'from', 2),
               ('first token', 'selec a from t', 'selec', 1), ('long line', f'select {long_cols} from from t', 'from', 2),
               ('long line, second line', f'select a,\n {long_cols} from from t where x', 'from', 2),
+              ('after a comment over two lines', 'select a\nfrom t /* only\n active */\nwhere a = = 1', '=', 2),
+              ('after a string over two lines', "select 'x\ny' b\nfrom from t", 'from', 2),
+              ('same line as the end of a comment', 'select a /* c1\n c2 */ from from t', 'from', 2),
               ('end of input', 'select a from', None, 0), ('end of input, long line', f'select {long_cols} from', None, 0),
               ('end of input, second line', 'select a\n  from', None, 0)]
     n = 0
@@ -419,33 +431,5 @@ def check_lineno_use(ctx, lex, sm):
     ctx.setcount('newline_rules_without_lineno_update', len(stale))
     if not stale:
         return
-    for fn in [m for m in sm.cls.body if isinstance(m, ast.FunctionDef)]:
-        dicts = set()
-        lineno_names = set()
-        for n in ast.walk(fn):
-            if isinstance(n, ast.Assign) and len(n.targets) == 1 and isinstance(n.targets[0], ast.Name):
-                v = n.value
-                if isinstance(v, ast.Dict) or (isinstance(v, ast.Call) and (dotted(v.func) or '').split('.')[-1] in (
-                        'dict', 'defaultdict', 'OrderedDict')):
-                    dicts.add(n.targets[0].id)
-        for _ in range(3):
-            for n in ast.walk(fn):
-                if isinstance(n, (ast.Assign, ast.AugAssign)):
-                    tg = n.targets[0] if isinstance(n, ast.Assign) else n.target
-                    if isinstance(tg, ast.Name):
-                        txt = norm(n.value)
-                        if '.lineno' in txt or any(isinstance(x, ast.Name) and x.id in lineno_names for x in ast.walk(n.value)):
-                            if not (isinstance(n.value, ast.Subscript) or isinstance(n.value, ast.Call)):
-                                lineno_names.add(tg.id)
-        for n in ast.walk(fn):
-            if isinstance(n, ast.Subscript) and isinstance(n.value, ast.Name) and n.value.id not in dicts:
-                idx = n.slice
-                uses = '.lineno' in norm(idx) or any(isinstance(x, ast.Name) and x.id in lineno_names for x in ast.walk(idx))
-                if uses:
-                    ctx.ob('C19.lineno-not-physical', f'{fn.name}:{norm(n)}'[:100], False,
-                           f'{fn.name} indexes the sequence `{n.value.id}` with a token line number (`{norm(n)}`), but the lexer '
-                           f'rules {stale[:4]} can consume newlines without advancing lineno: after a multi-line comment or '
-                           f'string the wrong source line is shown and the carets point at nothing',
-                           file=INIT, line=n.lineno, witness='select a\nfrom t /* only\n active */\nwhere a = = 1')
-                else:
-                    ctx.ob('C19.lineno-not-physical', f'{fn.name}:{norm(n)}'[:100], True)
+    ctx.note(f'lexer rules {stale} consume newlines without advancing lineno: token.lineno is not the physical line; error_location is interpreted on token lists '
+             f'with such line numbers (C19.caret-aligned: after a comment / a string over two lines)')
